@@ -125,6 +125,25 @@ class Report:
             self.ok('floor', f'floor:{name}', where, f'{found} >= {floor}')
 
 
+def include(rep, module_name, prefixes, label):
+    """evaluate another property's rules in this run and adopt the obligations whose rule id starts with one of `prefixes`
+    (a property whose statement contains a clause that is decided by a sibling's rules)"""
+    import importlib
+    try:
+        mod = importlib.import_module('rules.' + module_name)
+        sub = Report(rep.pid, rep.tier)
+        mod.run(sub)
+        n = 0
+        for o in sub.obs:
+            if o.rule.startswith(tuple(prefixes)):
+                o.rule = f'{label}/{o.rule}'
+                rep.obs.append(o)
+                n += 1
+        rep.floor(f'{label}: adopted obligations', n, 1)
+    except Exception as ex:
+        rep.bad(label, f'{label}:engine', '', f'cannot evaluate the shared rules of {module_name}: {ex!r}', undecided=True)
+
+
 def load_known():
     if not os.path.exists(KNOWN):
         return []
